@@ -81,12 +81,13 @@ def solve_spec(d, ty):
     if on["meat"]:
         k = gross(d["w_meat"])
         if d["store_years"]:
-            cum = []
+            # physical reading: cumulative eating never exceeds what has been slaughtered so far, computed from the monthly
+            # slaughter itself (NOT from the running-total series the optimiser is handed - that one is part of what is checked)
+            cum, slaughtered = [], 0.0
             for m in range(n):
                 cum = cum + [(v("meat", m), k)]
-                B.le(list(cum), d["meat_running"][m])
-                B.le([(v("meat", m), k)], d["meat_running"][m])
-                B.le(list(cum), d["meat_total"])
+                slaughtered += d["meat_monthly"][m]
+                B.le(list(cum), slaughtered)
         else:
             for m in range(n):
                 B.le([(v("meat", m), k)], d["meat_monthly"][m])
